@@ -22,3 +22,9 @@ Lemma pin_body_rm_ok :
   pin_body_rm_bfs_update_depth = frozen_rm_bfs_update_depth /\
   pin_body_rm_bfs_iterator = frozen_rm_bfs_iterator.
 Proof. repeat split; reflexivity. Qed.
+(* the matching-function part (Model/RoleGraphM.v) *)
+Lemma pin_body_rm_matching_ok :
+  pin_body_rm_link_if_matches = frozen_rm_link_if_matches /\
+  pin_body_rm_matching_fn = frozen_rm_matching_fn /\
+  pin_body_rm_new = frozen_rm_new.
+Proof. repeat split; reflexivity. Qed.
